@@ -152,3 +152,15 @@ claim("C11", E2,
       "path-forking symbolic execution of the training-loop code objects (bounded steps), per-path SMT validity of the accounting equations",
       "DESIGN.md §3 C11, §2 F-LOOP")
 NOT_APPLICABLE.pop("C11", None)
+
+claim("C12", E1,
+      "Bounded symbolic check of the actor objectives: pseudo-loss (softmax and Gaussian heads), DPG, SAC actor, TD7 actor, MR.Q "
+      "policy loss values in mode P/C (forward outputs generalised); reinforce / actor-critic / A2C gradients equal the gradient "
+      "jaxpr of the reference objective with stop-gradient weights (leaf-wise); PPO with a free-log-probability actor and free-table "
+      "critics of output shape (N,1) and (N,): loss formula incl. per-sample value error, gradient at unchanged policy = unclipped "
+      "surrogate, zero gradient for samples clipped on their favoured side; first Adam step of the temperature moves alpha up "
+      "exactly when -mean(log pi) < target entropy.",
+      REAL + " Batch 2-3, 3 PPO samples; Adam's sqrt/eps arithmetic with axiomatised sqrt/exp.",
+      "jaxpr (incl. gradient jaxprs) -> SMT with forward-pass generalisation; QF_NRA + axiomatised exp/sqrt",
+      "DESIGN.md §3 C12")
+NOT_APPLICABLE.pop("C12", None)
